@@ -767,6 +767,24 @@ def gen_fragment(repo, d, body, report):
                 raise LostAnchor(f"fragment {d['name']}: loop {k} not found")
             lb = toks[loops[k]["body_open"]]
             edits.add(lb.start, lb.start, "\n" + text + "\n", "SPEC", f"loop {k}")
+        elif sub["kind"] in ("loop_end", "loop_start"):
+            k = int(sub["args"][0])
+            if k >= len(loops):
+                raise LostAnchor(f"fragment {d['name']}: loop {k} not found")
+            if sub["kind"] == "loop_end":
+                lc = toks[loops[k]["body_close"]]
+                edits.add(lc.start, lc.start, "\n" + text + "\n", "GHOST", f"loop {k} end")
+            else:
+                lo_ = toks[loops[k]["body_open"]]
+                edits.add(lo_.end, lo_.end, "\n" + text + "\n", "GHOST", f"loop {k} start")
+        elif sub["kind"] == "try":
+            o = kv(sub["args"][1:])
+            a, b = src.find_seq(a0, b1 + 1, sub["args"][0], int(o.get("nth", 1)))
+            if toks[b].text != "?":
+                raise LostAnchor(f"fragment {d['name']}: @try anchor must end in `?`")
+            edits.add(toks[a].start, toks[a].start, "(match ", "R16", f"`?` desugared: {sub['args'][0]}")
+            edits.add(toks[b].start, toks[b].end, " { Ok(__v) => __v, Err(__e) => return Err(From::from(__e)) })", "R16", "")
+            stats["R16"] = stats.get("R16", 0) + 1
         elif sub["kind"] in ("before", "after"):
             o = kv(sub["args"][1:])
             a, b = src.find_seq(a0, b1 + 1, sub["args"][0], int(o.get("nth", 1)))
@@ -792,14 +810,25 @@ def gen_fragment(repo, d, body, report):
             edits.add(toks[a].start, toks[b].end, sub["args"][1], o.get("rule", "REWRITE"),
                       f"`{sub['args'][0]}` => `{sub['args'][1]}`")
     rewrite_for_loops(src, a0, b1 + 1, edits, stats)
+    entry_text = ""
+    for sub in subs:
+        if sub["kind"] == "after_loop":
+            k = int(sub["args"][0])
+            if k >= len(loops):
+                raise LostAnchor(f"fragment {d['name']}: loop {k} not found")
+            lc = toks[loops[k]["body_close"]]
+            edits.add(lc.end, lc.end, "\n" + "\n".join(sub["text"]).rstrip() + "\n", "GHOST", f"after loop {k}")
+        elif sub["kind"] == "entry":
+            entry_text += "\n".join(sub["text"]).rstrip() + "\n"
     lo_off, hi_off = toks[a0].start, toks[b1].end
     text, segs = edits.apply(src.text, lo_off, hi_off)
-    head = f"{d.get('qual', '')} fn {d['name']}{d.get('generics', '')}({d['sig'].split('->')[0].strip()})"
+    head = (d["attr"] + "\n" if d.get("attr") else "") + f"{d.get('qual', '')} fn {d['name']}{d.get('generics', '')}({d['sig'].split('->')[0].strip()})"
     if "->" in d["sig"]:
         head += " -> " + d["sig"].split("->", 1)[1].strip()
     head += "\n" + spec.rstrip() + "\n{\n"
     if d.get("__canary") and d.get("canary", "1") != "0":
         head += " proof { assert(false); }\n"
+    head += entry_text
     tail = "\n" + d.get("tail", "") + "\n}\n"
     segs = [(a + len(head), b + len(head), c) for (a, b, c) in segs]
     stats["R6"] = 1
